@@ -85,6 +85,7 @@ type State struct {
 	maxSteps int
 	seq, sub int
 	onceDone map[string]bool
+	released map[int]bool // objects handed back to a sync.Pool: any later use by this call is a use after Put
 	expectPanic bool
 	ghost    map[string]Value
 	groups   map[string]bool
@@ -149,6 +150,12 @@ func (st *State) clone(newID int) *State {
 	n.counters = make(map[string]int, len(st.counters))
 	for k, v := range st.counters {
 		n.counters[k] = v
+	}
+	if len(st.released) > 0 {
+		n.released = make(map[int]bool, len(st.released))
+		for k, v := range st.released {
+			n.released[k] = v
+		}
 	}
 	n.onceDone = make(map[string]bool, len(st.onceDone))
 	for k, v := range st.onceDone {
